@@ -1599,6 +1599,11 @@ def classify_link(g, occ, use_line, linked_k, linked_line, expected_k):
         return "using-declaration-substitutes-other-name"
     udirs = oi.get("udirs", [])
     use_scope = oi.get("scope", "")
+    # K8: inside a member function a using-declaration `using NS::x;` hides the member x for the compiler (also in nested
+    # blocks); cppcheck links the use in a nested block to the member of the enclosing class
+    if (oi["name"] in oi["usings"] and de[0] == "ns-var" and de[1] == oi["usings"][oi["name"]]
+            and dl[0] in ("member", "static-member") and dl[1] == use_scope):
+        return "using-declaration-loses-to-member"
     dormant = [p for p in oi.get("fun_udirs", []) if p not in udirs]
     # K2: a non-member function declared after the call cannot be what the compiler selected
     if dl[0] == "function" and de[0] in ("function", "method") and linked_line > use_line:
